@@ -46,6 +46,114 @@ def big_types():
             LIST(TUP(u8, OPT(u8)), 16), ARR(LIST(u8, 4), 3), OPT(LIST(ARR(u8, 3), 8))]
 
 
+def n_values(t, cap=1 << 20):
+    k = t[0]
+    if k == "u":
+        return min(cap, 1 << t[1])
+    if k == "bool":
+        return 2
+    if k in ("tuple", "array"):
+        n = 1
+        for e in (t[1] if k == "tuple" else [t[1]] * t[2]):
+            n = min(cap, n * n_values(e, cap))
+        return n
+    if k == "option":
+        return min(cap, 1 + n_values(t[1], cap))
+    if k == "either":
+        return min(cap, n_values(t[1], cap) + n_values(t[2], cap))
+    if k == "list":
+        e = n_values(t[1], cap)
+        return min(cap, sum(min(cap, e ** n) for n in range(t[2])))
+    raise ValueError(t)
+
+
+def all_values(t):
+    """every value of t as the canonical padded bit pattern of the book layout (python int of width(t) bits)"""
+    k = t[0]
+    w = width(t)
+    if k == "u":
+        return range(1 << t[1])
+    if k == "bool":
+        return range(2)
+    if k in ("tuple", "array"):
+        out = [0]
+        for e in (t[1] if k == "tuple" else [t[1]] * t[2]):
+            we = width(e)
+            out = [(x << we) | y for x in out for y in all_values(e)]
+        return out
+    if k == "option":
+        return [0] + [(1 << (w - 1)) | y for y in all_values(t[1])]
+    if k == "either":
+        return [y for y in all_values(t[1])] + [(1 << (w - 1)) | y for y in all_values(t[2])]
+    if k == "list":
+        we = width(t[1])
+        sizes = list_block_sizes(t[2])
+        out = []
+        for n in range(t[2]):
+            # elements fill the present blocks in order, largest block first
+            for elems in _tuples(list(all_values(t[1])), n):
+                x, i = 0, 0
+                for sz in sizes:
+                    present = 1 if n & sz else 0
+                    x = (x << 1) | present
+                    for _ in range(sz):
+                        x = (x << we) | (elems[i] if present else 0)
+                        i += present
+                out.append(x)
+        return out
+    raise ValueError(t)
+
+
+def _tuples(vals, n):
+    if n == 0:
+        return [()]
+    return [(v,) + r for v in vals for r in _tuples(vals, n - 1)]
+
+
+def small_types():
+    """types with at most 600 values: every value is laid out, compared with the book and reconstructed"""
+    u1, u2, u4, u8 = U(1), U(2), U(4), U(8)
+    extra = [OPT(u4), OPT(BOOL), OPT(OPT(OPT(u1))), EITHER(u4, u2), EITHER(OPT(u4), u8), EITHER(BOOL, UNIT), EITHER(EITHER(u2, u2), EITHER(u2, u1)),
+             TUP(u1, u2, u4), TUP(OPT(u2), EITHER(u1, u2), BOOL), TUP(u2, u2, u2, u2), TUP(u1, u1, u1, u1, u1), ARR(u2, 3), ARR(BOOL, 5), ARR(OPT(u1), 3),
+             ARR(u1, 7), ARR(EITHER(u1, UNIT), 4), LIST(u1, 2), LIST(u1, 4), LIST(u2, 4), LIST(u1, 8), LIST(BOOL, 8), LIST(OPT(u1), 4), LIST(TUP(u1, u1), 4),
+             LIST(UNIT, 16), OPT(LIST(u1, 4)), TUP(LIST(u1, 4), u2), EITHER(LIST(u2, 2), ARR(u1, 2)), OPT(TUP(u4, BOOL)), ARR(TUP(u1, OPT(u1)), 2)]
+    seen, out = set(), []
+    for t in family() + extra:
+        if t not in seen and n_values(t) <= 600:
+            seen.add(t)
+            out.append(t)
+    return out
+
+
+def exhaustive_value_checks():
+    """(n_types, n_values, violations): EVERY value of every small type: library bits = book bits, reconstruct gives the value back.
+    An enumeration over values (not a solver verdict): the clause 'structural form -> reconstruct returns the same value' is outside
+    what Kani can encode (DESIGN 1)."""
+    reqs, meta = [], []
+    for t in small_types():
+        for x in all_values(t):
+            reqs.append({"type": ty_str(t), "value": value_text(t, x)})
+            meta.append((t, x))
+    resp = E.driver_batch("layout", reqs)
+    bad, per_type = [], {}
+    for (t, x), r in zip(meta, resp):
+        w = width(t)
+        book = format(x, "0%db" % w) if w else ""
+        rec = None
+        if not r.get("ok"):
+            rec = {"kind": "layout-value", "detail": "library refused the value: %s" % r.get("error")}
+        elif book != r["bits"]:
+            rec = {"kind": "layout-value", "book_bits": book, "library_bits": r["bits"], "detail": "structural bits of a value differ from the documented layout"}
+        elif not r.get("reconstruct_eq", True):
+            rec = {"kind": "layout-reconstruct", "detail": "converting the value to its structural form and reconstructing it at its type gives a different value"}
+        if rec:
+            n = per_type.get(ty_str(t), 0)
+            per_type[ty_str(t)] = n + 1
+            if n < 2:  # two reports per type are enough
+                bad.append(dict(rec, type=ty_str(t), value=value_text(t, x)))
+    return len(small_types()), len(reqs), bad
+
+
 def structure_and_value_checks(seed):
     """returns (n_types, n_values, list of violation records)"""
     rng = random.Random(seed)
@@ -109,6 +217,8 @@ def main():
     tier, seed = suite.tier_seed()
     E.build_driver()
     nt, nv, bad = structure_and_value_checks(seed)
+    xt, xv, xbad = exhaustive_value_checks()
+    bad += xbad
     cs = cases(tier, seed)
 
     def extra(results):
@@ -117,7 +227,8 @@ def main():
         trap = sum(1 for r in results if r["tags"].get("expected") == "rejected" and r["tags"].get("same_width") and r["status"] == "rejected_as_expected")
         return {"types_in_cast_family": len(family()), "ordered_pairs": len(results), "admissible_casts_proved_bit_preserving": acc,
                 "inadmissible_casts_rejected": rej, "of_which_same_width_but_different_structure": trap,
-                "type_structures_compared_with_book": nt, "value_layouts_compared_with_book": nv, "exhaustive": True}
+                "type_structures_compared_with_book": nt, "value_layouts_compared_with_book": nv,
+                "small_types_with_every_value_laid_out_and_reconstructed": xt, "values_of_small_types": xv, "exhaustive": True}
 
     return suite.run_property(
         "C07", cs, kani=True, pre_violations=bad, rejection_is_violation=True,
@@ -126,7 +237,7 @@ def main():
                    "value.rs: StructuralValue::from(&Value) (value layout comparison on samples)", "ast.rs: cast admissibility (TypeCast); compile.rs: cast compiled as a no-op"],
         bounds={"layout_step": "every slice length n <= 300 (shape) / n <= 96 (element order); every list bound 2..64 and every length below it",
                 "casts": "all ordered pairs of %d types (depth <= 2, small sizes)" % len(family()), "structures": "%d types incl. arrays up to 100, tuples up to 13, list bounds up to 512" % (len(family()) + len(big_types())),
-                "values": "3 seeded values per type"},
+                "values": "3 seeded values per type; EVERY value of the %d types with at most 600 values (enumeration, also through Value::reconstruct)" % len(small_types())},
         outside=["Value -> StructuralValue -> Value::reconstruct round trip as a universally quantified statement (Kani internal compiler error, DESIGN 1); it is only exercised on the sampled values",
                  "sizes above the stated bounds; fold/unfold's use of as_node through miniscript's generic tree iterators (trusted)"],
         assumptions=["z3 4.8.12 / CBMC 6.11 sound", "book/src/type_casting.md is the layout oracle (simsym/src.py: structure, width, to_bits)"],
